@@ -81,6 +81,21 @@ def h_seed_roundtrip(ctx, shape):
     ctx.fact(back.shape == shape, 'extract_jac_vec(init_jac_vec(x, v)) has the shape of v: %s vs %s' % (back.shape, shape))
     if back.shape == shape:
         ctx.eq(back, v, 'extract_jac_vec(init_jac_vec(x, v)) == v')
+    if len(shape) == 2:
+        # matrix-shaped seed points, C-ordered and as a transposed (Fortran-ordered) view: the base
+        # point of every direction is x in row-major index order
+        xt = _vars(ctx, 'xt', shape[::-1])
+        for label, arr, ref in (('C order', mk_array(ctx, x), x), ('transposed view', mk_array(ctx, xt).T, xt.T)):
+            N = int(np.prod(shape))
+            for init in ('init_jacobian', 'init_hessian'):
+                try:
+                    uu = getattr(UTPM, init)(arr)
+                except NotImplementedError:
+                    continue
+                U0 = plain(uu.data)[0]
+                ctx.fact(U0.shape[1:] in ((N,), tuple(np.shape(ref))), '%s(%s) base point shape %s' % (init, label, U0.shape))
+                for p_ in range(U0.shape[0]):
+                    ctx.eq(np.ravel(U0[p_]), np.ravel(np.array(ref, dtype=object)), '%s(%s) base point of direction %d' % (init, label, p_))
     if len(shape) == 1:
         N = shape[0]
         uj = UTPM.init_jacobian(mk_array(ctx, x))
@@ -188,6 +203,49 @@ def h_containers(ctx, D, P):
     ctx.eq(C[:, :, :2, 1:], blocks[0][1], 'block01')
     ctx.eq(C[:, :, 2:, :1], blocks[1][0], 'block10')
     ctx.eq(C[:, :, 2:, 1:], blocks[1][1], 'block11')
+
+
+def h_combine_mixed(ctx, D, P):
+    """combine_blocks takes D and P as the maximum over the blocks: a direction-independent block
+    stored with P=1 is broadcast to every direction"""
+    algopy = symx.load_algopy()
+    UTPM = algopy.UTPM
+    b00 = _vars(ctx, 'b00', (D, P, 2, 1))
+    b01 = _vars(ctx, 'b01', (D, 1, 2, 2))           # P = 1 block
+    b10 = _vars(ctx, 'b10', (D, P, 1, 1))
+    b11 = _vars(ctx, 'b11', (D, P, 1, 2))
+    cb = UTPM.combine_blocks([[mk_utpm(ctx, algopy, b00), mk_utpm(ctx, algopy, b01)],
+                              [mk_utpm(ctx, algopy, b10), mk_utpm(ctx, algopy, b11)]])
+    C = plain(cb.data)
+    ctx.fact(C.shape == (D, P, 3, 3), 'combine_blocks shape %s' % (C.shape,))
+    ctx.eq(C[:, :, :2, :1], b00, 'block00')
+    for p in range(P):
+        ctx.eq(C[:, p, :2, 1:], b01[:, 0], 'the P=1 block in direction %d' % p)
+    ctx.eq(C[:, :, 2:, :1], b10, 'block10')
+    ctx.eq(C[:, :, 2:, 1:], b11, 'block11')
+
+
+def h_dirs_intV(ctx, D, P):
+    """non-integer base point with integer-typed direction array (numpy.eye(N, dtype=int) seeds):
+    base_and_dirs2utpm keeps the base point exactly.  Concrete data: decided on the float build."""
+    algopy = symx.load_algopy()
+    from algopy import utils
+    if ctx.mode == 'sym':
+        ctx.fact(True, 'concrete integer-typed directions: decided on the float build')
+        ctx.eq(S.const(0), S.const(0), 'base point kept')
+        return
+    x = np.array([0.25, -2.75, 1.5])
+    V = np.zeros((3, P, D - 1), dtype=int)
+    for p in range(P):
+        V[p % 3, p, 0] = 1
+    u = utils.base_and_dirs2utpm(x, V)
+    for p in range(P):
+        ctx.eq(plain(u.data)[0, p], x, 'base point kept in direction %d' % p)
+        for d in range(1, D):
+            ctx.eq(plain(u.data)[d, p], V[:, p, d - 1].astype(float), 'direction %d coefficient %d' % (p, d))
+    xb, Vb = utils.utpm2base_and_dirs(u)
+    ctx.eq(plain(xb), x, 'round trip x')
+    ctx.eq(plain(Vb), V.astype(float), 'round trip V')
 
 
 def h_shift(ctx, D, P, s):
@@ -333,6 +391,8 @@ def units(tier, seed):
             add('symvec/ndarray/n%d,%s' % (n, uplo), 'h_symvec', n=n, uplo=uplo, kind='ndarray')
             add('symvec/utpm/n%d,%s' % (n, uplo), 'h_symvec', n=n, uplo=uplo, kind='utpm', D=2, P=2)
     add('containers/D2,P2', 'h_containers', D=2, P=2)
+    add('containers/combine_blocks with a P=1 block/D2,P3', 'h_combine_mixed', D=2, P=3)
+    add('dirs/integer-typed directions, non-integer base point/D3,P2', 'h_dirs_intV', D=3, P=2)
     add('containers/permuted object arrays/D2,P2', 'h_as_utpm_views', D=2, P=2)
     add('pivots/UTPM.piv2mat+piv2det/n2,P2', 'h_pivots_utpm', opts={'path_budget': 200}, n=2, P=2)
     add('pivots/UTPM.piv2mat+piv2det/n3,P2', 'h_pivots_utpm', opts={'path_budget': 400, 'validate_paths': 6}, n=3, P=2)
